@@ -262,13 +262,14 @@ func vrNafCheck(out []int, s []byte, w int) string {
 	return ""
 }
 
-// vrCaseDecomposeNAFSmall: EXHAUSTIVE over all inputs of a short width: every 16-bit integer (n = 17), 20-bit when
-// n_per_case >= 1000 (n = 21), for every window width 1..7. The recoding acts locally (it looks at w+1 bits and a
+// vrCaseDecomposeNAFSmall: EXHAUSTIVE over all inputs of a short width: every 16-bit integer (n = 17), 24-bit when
+// n_per_case >= 1000 (n = 25), for every window width 1..7. The recoding acts locally (it looks at w+1 bits and a
 // carry), so all local configurations including the byte-boundary cases of getBits occur; uses int64 arithmetic.
 func vrCaseDecomposeNAFSmall(c *vrCase) {
+	// the function indexes bits from the most significant bit of s: the width must be exactly 8*len(s) = n-1
 	bitsN := 16
 	if c.n >= 1000 {
-		bitsN = 20
+		bitsN = 24
 	}
 	nb := (bitsN + 7) / 8
 	n := bitsN + 1
